@@ -271,7 +271,10 @@ def _compose_job(args):
                         return seed_patch, ref_patch, 'conflict'
         ck = run_property(pid, World(tmp))
         new = {o.key for o in ck.violations()} - base_v
-        return seed_patch, ref_patch, 'reported' if new else 'missed'
+        if new:
+            return seed_patch, ref_patch, 'reported'
+        # on restructured code a structural rule abstains (exit 2, section 11 "restructured code"): undecided is not a miss
+        return seed_patch, ref_patch, 'undecided' if (ck.incompletes() or ck.floor_failures()) else 'missed'
     finally:
         shutil.rmtree(tmp, ignore_errors=True)
 
@@ -305,13 +308,20 @@ def composed(pid: str, world: World, base_v: set) -> tuple[int, list[str]]:
         results = pool.map(_compose_job, jobs)
     n = 0
     failures = []
+    global LAST_COMPOSED_UNDECIDED
+    LAST_COMPOSED_UNDECIDED = 0
     for sp, rp, status in results:
         if status == 'conflict':
             continue
         n += 1
+        if status == 'undecided':
+            LAST_COMPOSED_UNDECIDED += 1
         if status == 'missed':
-            failures.append(f'seed {os.path.basename(os.path.dirname(sp))} on refactor {os.path.basename(os.path.dirname(rp))}: the defect is no longer reported')
+            failures.append(f'seed {os.path.basename(os.path.dirname(sp))} on refactor {os.path.basename(os.path.dirname(rp))}: the defect is neither reported nor declared undecided')
     return n, failures
+
+
+LAST_COMPOSED_UNDECIDED = 0
 
 
 def self_test(pid: str, world: World) -> tuple[dict, list[str]]:
@@ -379,7 +389,7 @@ def self_test(pid: str, world: World) -> tuple[dict, list[str]]:
             except (AnalysisError, subprocess.CalledProcessError) as exc:
                 hist = {'revision': exp['revision'], 'skipped': str(exc)[:80]}
     return {'self_test': {'benign_variants_silent': nben - sum(1 for f in failures if f.startswith('benign')), 'benign_variants': nben, 'refactor_corpus': nref,
-                          'refactor_corpus_silent': nref - len(ref_fail), 'seed_on_refactor_pairs': ncomp, 'seed_on_refactor_reported': ncomp - len(comp_fail), 'seeded_defects': nseed,
+                          'refactor_corpus_silent': nref - len(ref_fail), 'seed_on_refactor_pairs': ncomp, 'seed_on_refactor_reported': ncomp - len(comp_fail) - LAST_COMPOSED_UNDECIDED, 'seed_on_refactor_undecided': LAST_COMPOSED_UNDECIDED, 'seeded_defects': nseed,
                           'seeded_defects_reported': ncaught, 'historical': hist}}, failures
 
 
